@@ -59,7 +59,28 @@ def np_random_choice_small(ex, p, args, kwargs, e):
     return VList(size.t, arr, 'int')
 
 
+# ---- itertools.product(list(range(m)), repeat=n) (T11): a finite enumeration E[0..N) of lists of length n over range(m);
+#      (completeness - every such tuple occurs - is the trusted part and is only needed to read "over all matchings")
+def it_product(ex, p, args, kwargs, e):
+    src = args[0]; rep = kwargs.get('repeat')
+    if not (isinstance(src, VExt) and src.tag == 'rangeobj' and len(src.data) == 1 and isinstance(rep, VInt)): raise Undecided('product form')
+    m = src.data[0].t
+    N = z3.Int('ENUM.len'); E = z3.Array('ENUM.arr', I, list_sort('int'))
+    L = list_sort('int'); u = fresh('u', I); i = fresh('i', I)
+    p.assume(N >= 1)
+    p.assume(z3.ForAll([u], z3.Implies(z3.And(0 <= u, u < N), z3.And(L.len(E[u]) == z3.If(rep.t >= 0, rep.t, 0),
+             z3.ForAll([i], z3.Implies(z3.And(0 <= i, i < L.len(E[u])), z3.And(0 <= L.arr(E[u])[i], L.arr(E[u])[i] < m)))))))
+    return VExt('product_enum', VList(N, E, ('list', 'int')))
+
+
+def iter_product(ex, v, p, line):
+    lst = v.data
+    return lst.len, (lambda k: wrap(lst.kind, z3.Select(lst.arr, k))), None, None
+
+
 def install(ex):
+    ex.ext_models['product'] = it_product
+    ex.iter_models['product_enum'] = iter_product
     ex.ext_models['np.sum'] = np_sum
     ex.ext_models['np.array'] = np_array
     ex.ext_models['np.random.choice'] = np_random_choice_small
